@@ -4,13 +4,14 @@ from props.c06 import tsrc
 
 THEOREMS = ["Folang.Props.C07." + t for t in """lookup_frame register_swap register_perm drop_unreferenced split_files
 unfixed_key_collision fixed_no_collision split_unique joinWith_inj encodedKey_inj typeinfo_frame typeinfo_frame_partial fact_fcGlobals
-item_split item_append_comma joinWith_inj_items joinWith_inj_items_nonempty encodedKey_inj_balanced encodedKey_inj_balanced_nonempty typeinfo_frame_balanced""".split()]
+item_split item_append_comma joinWith_inj_items joinWith_inj_items_nonempty encodedKey_inj_balanced encodedKey_inj_balanced_nonempty typeinfo_frame_balanced
+item_eq_scan scan_append scan_mono toGo_bal toGoList_bal toGo_items encodedKey_inj_types""".split()]
 
 ASSUMPTIONS = [
     "PARTIAL: the state a definition can read (root scope dictionaries of the single ParseState, the two process-global type-info dictionaries keyed by encodedKey, uniqueId) is modelled as finite maps; frame / commutation / file-splitting theorems are about these maps; the per-definition translation itself is abstract",
     "that the translation reads the state only through these lookups is tied by metamorphic runs of the real compiler in-process (swap two independent groups of definitions, drop one, insert an unrelated record+function, cut into three files in dependency order): per-declaration Go text compared after renumbering _vN by first occurrence",
     "regenerated fact: the package-level variables of fc are exactly the modelled ones (a new global fails the obligation)",
-    "defect D14 (the type-info key name_arg_arg was not injective: A<B_C> vs A_B<C>) is repaired in c59ed89 (key name<arg,arg>): encodedKey_inj proves injectivity for names without < and non-empty argument texts without a comma; typeinfo_frame is then unconditional for such instances; encodedKey_inj_balanced / typeinfo_frame_balanced (Props/C07Balanced.lean) prove the same for EVERY bracket-balanced argument text whose commas stand inside brackets (tuples frt.Tuple2[int, string], function types func (int, string) bool, generic instances with several arguments, the empty text of unit), given that a type name has one arity; that the real FTypeToGo only produces such texts and that the real encodedKey is the modelled one is the correspondence stream c07.key (random type arguments parsed by the real parseType; the model answers with the key and with whether the hypotheses of the theorem hold for the instance); corpus/C07/d14_key_collision.fo is the regression program",
+    "defect D14 (the type-info key name_arg_arg was not injective: A<B_C> vs A_B<C>) is repaired in c59ed89 (key name<arg,arg>): encodedKey_inj proves injectivity for names without < and non-empty argument texts without a comma; typeinfo_frame is then unconditional for such instances; encodedKey_inj_balanced / typeinfo_frame_balanced (Props/C07Balanced.lean) prove the same for EVERY bracket-balanced argument text whose commas stand inside brackets (tuples frt.Tuple2[int, string], function types func (int, string) bool, generic instances with several arguments, the empty text of unit), given that a type name has one arity; toGo_items / encodedKey_inj_types (Props/C07Texts.lean) prove that the MODEL of FTypeToGo (Model/TypeExpr.lean, the one tied by c15.type) renders every type whose type names hold no bracket or comma as such a text, so for modelled types the key is injective without a hypothesis on texts; that the real FTypeToGo produces these texts and that the real encodedKey is the modelled one is the correspondence stream c07.key (random type arguments parsed by the real parseType; the model answers with the key and with whether the hypotheses of the theorem hold for the instance); corpus/C07/d14_key_collision.fo is the regression program",
 ]
 
 
@@ -20,10 +21,10 @@ def run(ctx):
     fcdrv = ctx.build_fcdrv()
     ctx.assumptions += ASSUMPTIONS
     ctx.partial.append("per-definition translation not modelled (read-set tied by metamorphic runs)")
-    ctx.lake_build(["Folang.Props.C07", "Folang.Props.C07Balanced"])
-    ctx.audit(THEOREMS, ["Folang.Props.C07", "Folang.Props.C07Balanced"])
+    ctx.lake_build(["Folang.Props.C07", "Folang.Props.C07Balanced", "Folang.Props.C07Texts"])
+    ctx.audit(THEOREMS, ["Folang.Props.C07", "Folang.Props.C07Balanced", "Folang.Props.C07Texts"])
     if ctx.tier == "thorough":
-        ctx.leanchecker(["Folang.Props.C07", "Folang.Props.C07Balanced"])
+        ctx.leanchecker(["Folang.Props.C07", "Folang.Props.C07Balanced", "Folang.Props.C07Texts"])
     ctx.stream("c07.key", [fcdrv], env=gocommon.fc_env("c07key", "%d %d" % (ctx.seed, 3000 if ctx.tier == "quick" else 60000)), timeout=3000)
     n = 60 if ctx.tier == "quick" else 900
     r = ctx.run_harness([fcdrv], env=gocommon.fc_env("c07", "%d %d" % (ctx.seed, n)), timeout=20000)
